@@ -911,7 +911,7 @@ def run(ctx):
                 fixed.append(fixed_scenario(name, cc=cc, ver=ver))
     suite.run(fixed, "fixed")
     # 3. random scripts x random adversarial-then-fair networks
-    suite.run(gen_random_scenarios(rng, ctx.n(110, 5000), big=ctx.thorough), "random")
+    suite.run(gen_random_scenarios(rng, ctx.n(150, 5000), big=ctx.thorough), "random")
     # 4. single-fault placements: drop or duplicate datagram i, for every i
     exhaustive = []
     names = sorted(FIXED_SCRIPTS) if ctx.thorough else ["rebind_mid_transfer"]
